@@ -245,8 +245,8 @@ class C16(Property):
     thorough_n = 12000
     partial = ["markdown is not modelled: its completeness is decided from the document handed to it (identical to the HTML one) and "
                "by the oracle on its text",
-               "C16_html_well_nested assumes balanced blocks in the document; that the documents bpaf builds are balanced is checked "
-               "on every document of every run, not proved"]
+               "the theorems about the documents bpaf builds (existence, balanced blocks, well-nested HTML) assume that the "
+               "definition's own documents are balanced -- all the Doc API can build; checked on every document of every run too"]
 
     def generate(self, rng, tier, n):
         cases = []
